@@ -129,7 +129,8 @@ def main(argv=None):
     model_ok = True
     modelled = [i for i, (c, enc, v, o) in enumerate(results) if mod.model_term(c) is not None]
     if modelled:
-        pairs = [(mod.model_term(results[i][0]), lib.cobs(results[i][1])) for i in modelled]
+        view = getattr(mod, 'model_view', lambda c, o: o)
+        pairs = [(mod.model_term(results[i][0]), lib.cobs(view(results[i][0], results[i][1]))) for i in modelled]
         bad, errs = lib.model_mismatches(prop, mod.IMPORTS, pairs, prelude=getattr(mod, "PRELUDE", ""))
         mism = [modelled[k] for k in bad]
         if errs:
